@@ -100,3 +100,13 @@ pub(crate) fn amv_canary_false() {
     let a: u8 = nd();
     assert!(a != 7, "amv canary");
 }
+
+/// ghost lock state (only meaningful under Kani, where the lock stub counts; natively both are 0)
+#[cfg(kani)]
+pub(crate) fn lock_counts() -> (isize, isize) {
+    unsafe { (vsync::G_READERS, vsync::G_WRITERS) }
+}
+#[cfg(not(kani))]
+pub(crate) fn lock_counts() -> (isize, isize) {
+    (0, 0)
+}
